@@ -1,6 +1,7 @@
 package main
 
 import (
+	"math"
 	"flag"
 	"fmt"
 	"math/rand"
@@ -38,8 +39,27 @@ type cfgRec struct {
 	R   []rRec `json:"r"`
 }
 
+// revStep: 0 = revisions are what the records say; otherwise record revisions are ranks and the real revision of rank k
+// is MinInt64 + k*revStep (ranks 0..15): revisions spread over the whole int64 range, order preserved. The
+// specification only compares revisions, so it reads ranks. (Scenarios run one at a time.)
+var revStep int64
+
+func revOf(rank int) int64 {
+	if revStep == 0 {
+		return int64(rank)
+	}
+	return math.MinInt64 + int64(rank)*revStep
+}
+
+func rankOf(rev int64) int {
+	if revStep == 0 {
+		return int(rev)
+	}
+	return int((uint64(rev) - uint64(1)<<63) / uint64(revStep)) // offset from MinInt64, computed in unsigned arithmetic
+}
+
 func (c cfgRec) build() *tpb.Configuration {
-	out := &tpb.Configuration{Revision: int64(c.Rev), Target: map[string]*tpb.Target{}, Request: map[string]*gpb.SubscribeRequest{}}
+	out := &tpb.Configuration{Revision: revOf(c.Rev), Target: map[string]*tpb.Target{}, Request: map[string]*gpb.SubscribeRequest{}}
 	for _, t := range c.T {
 		if t.Nil {
 			out.Target[t.N] = nil
@@ -73,7 +93,7 @@ func projReq(r *gpb.SubscribeRequest) string {
 }
 
 func projCfg(c *tpb.Configuration) cfgRec {
-	out := cfgRec{Rev: int(c.GetRevision()), T: []tRec{}, R: []rRec{}}
+	out := cfgRec{Rev: rankOf(c.GetRevision()), T: []tRec{}, R: []rRec{}}
 	for n, t := range c.GetTarget() {
 		out.T = append(out.T, projTarget(n, t))
 	}
@@ -248,6 +268,10 @@ func targetcfgRandom(args []string) error {
 		d.reset()
 		tn := []string{"t1", "t2", "t3", "t4", "t5", "t6", "t7", "t8"}[:2+r.Intn(7)]
 		rn := []string{"r1", "r2", "r3", "r4"}[:1+r.Intn(4)]
+		revStep = 0
+		if r.Intn(4) == 0 {
+			revStep = 1 << 60 // rank 0 = MinInt64, rank 15 = MaxInt64 - 2^60 + 1
+		}
 		if r.Intn(3) == 0 {
 			// requests named like targets (a request per device): the two key spaces are independent
 			rn = append([]string{}, tn[:1+r.Intn(len(tn))]...)
@@ -261,6 +285,22 @@ func targetcfgRandom(args []string) error {
 			nx := cfgRec{Rev: cur.Rev + r.Intn(3) - r.Intn(2), T: []tRec{}, R: []rRec{}}
 			if nx.Rev < 0 {
 				nx.Rev = 0
+			}
+			if revStep != 0 {
+				// revisions at the ends of the int64 range: quick climbs, and far-stale configurations coming back
+				nx.Rev = cur.Rev + r.Intn(4)
+				if nx.Rev < 0 {
+					nx.Rev = 0
+				}
+				if r.Intn(3) == 0 {
+					nx.Rev = 0
+					if cur.Rev > 0 {
+						nx.Rev = r.Intn(cur.Rev + 1)
+					}
+				}
+				if nx.Rev > 15 {
+					nx.Rev = 15
+				}
 			}
 			for _, q := range rn {
 				if r.Intn(5) > 0 {
